@@ -249,6 +249,12 @@ def entry_grid(ctx, dist):
         add(both, "jwssig\t%s\t%s\t%s" % (J({"payload": pay}), J({"protected": {"alg": "HS256"}}), J(with_meta(hk, meta, sp))), sp, "sign HS256")
         add(both, "jwsver\t%s\t-\t%s\t0" % (J(hs_tok), J(with_meta(hk, meta, vp))), vp, "verify HS256")
         add(impl_only, "jwssig\t%s\t%s\t%s" % (J({"payload": pay}), J({"protected": {"alg": "ES256"}}), J(with_meta(ec, meta, P["ES256"]["sprm"]))), P["ES256"]["sprm"], "sign ES256")
+        # the same when the algorithm is not named by the template but inferred from the key (its size / curve / "alg")
+        add(both, "jwssig\t%s\t-\t%s" % (J({"payload": pay}), J(with_meta(hk, meta, sp))), sp, "sign HS256 (inferred)")
+        add(both, "jwssig\t%s\t%s\t%s" % (J({"payload": pay}), J({"header": {"kid": "k1"}}), J(with_meta(hk, meta, sp))), sp, "sign HS256 (inferred, template without alg)")
+        add(both, "jwssig\t%s\t-\t%s" % (J({"payload": pay}), J(dict(with_meta(hk, meta, sp), alg="HS256"))), sp, "sign HS256 (key's alg)")
+        add(impl_only, "jwssig\t%s\t-\t%s" % (J({"payload": pay}), J(with_meta(ec, meta, P["ES256"]["sprm"]))), P["ES256"]["sprm"], "sign ES256 (inferred)")
+        add(impl_only, "jweenc\t{}\t-\t%s\t00" % J(with_meta(kw, meta, P["A128KW"]["eprm"])), P["A128KW"]["eprm"], "wrap A128KW (inferred)")
         if not es_tok.startswith(("ERR", "CRASH")):
             add(impl_only, "jwsver\t%s\t-\t%s\t0" % (es_tok, J(with_meta(G.pub_of(ec), meta, P["ES256"]["vprm"]))), P["ES256"]["vprm"], "verify ES256")
         e, d = P["A128KW"]["eprm"], P["A128KW"]["dprm"]
